@@ -24,8 +24,53 @@ def _seed_for(base, idx):
     return (int(base) * 1000003 + idx * 7919 + 17) % (2 ** 31)
 
 
+ENVS = {
+    # a process whose locale encoding is ASCII (POSIX "C" locale without the UTF-8 coercions of
+    # PEP 538/540): what open() without encoding= uses there is what a cp1252 / latin-1 user gets
+    "ascii_locale": {"PYTHONUTF8": "0", "PYTHONCOERCECLOCALE": "0", "LC_ALL": "C", "LANG": "C",
+                     "PYTHONIOENCODING": "utf-8"},
+}
+
+
+def _in_env(fn, args, envname):
+    """Run _worker/_replay_worker in a fresh interpreter with a different process environment."""
+    import pickle, subprocess, tempfile
+    d = tempfile.mkdtemp(prefix="vfsub_")
+    try:
+        with open(os.path.join(d, "in"), "wb") as fh:
+            pickle.dump((fn, args), fh)
+        e = dict(os.environ)
+        e.update(ENVS[envname])
+        e["VF_SUBENV"] = envname
+        subprocess.run([sys.executable, "-m", "vf.run", "--sub", d], env=e, check=False,
+                       stdout=subprocess.DEVNULL, stderr=subprocess.DEVNULL)
+        with open(os.path.join(d, "out"), "rb") as fh:
+            return pickle.load(fh)
+    finally:
+        import shutil
+        shutil.rmtree(d, ignore_errors=True)
+
+
+def _sub_main(d):
+    import pickle
+    with open(os.path.join(d, "in"), "rb") as fh:
+        fn, args = pickle.load(fh)
+    out = {"_worker": _worker, "_replay_worker": _replay_worker}[fn](args)
+    with open(os.path.join(d, "out"), "wb") as fh:
+        pickle.dump(out, fh)
+    return 0
+
+
 def _worker(args):
     prop, shard, seed, tier, idx = args
+    if shard.get("env") and os.environ.get("VF_SUBENV") != shard["env"]:
+        try:
+            return _in_env("_worker", args, shard["env"])
+        except BaseException:
+            return {"shard": shard.get("name"), "error": traceback.format_exc(),
+                    "evaluations": 0, "nt": set(), "samples": [], "classes": {},
+                    "known_hits": {}, "known_cases": {}, "violations": [], "excluded": {},
+                    "extra": {}, "notes": [], "wall_s": 0.0}
     from . import core, env
     env.silence()
     env.scratch()
@@ -50,6 +95,12 @@ def _worker(args):
 
 def _replay_worker(args):
     prop, kind, case = args
+    want = case.get("env") if isinstance(case, dict) else None
+    if want and os.environ.get("VF_SUBENV") != want:
+        try:
+            return _in_env("_replay_worker", args, want)
+        except BaseException:
+            return {"error": traceback.format_exc(), "failures": [], "unmatched": [], "known": {}}
     from . import core, env
     env.silence()
     env.scratch()
@@ -87,6 +138,8 @@ def main(argv):
     if len(argv) < 2:
         print("usage: check <ID> quick|thorough | --replay <file>")
         return 2
+    if argv[0] == "--sub":
+        return _sub_main(argv[1])
     prop = argv[0].upper()
     mod = _load(prop)
     from . import findings
